@@ -31,6 +31,16 @@ CHECKS = {
         technique="TLA+ spec Plushy.tla: recursive-descent Parse vs an independent block-stack state machine, TLC over all gene sequences <= 6/8; every genome replayed through the real From<Plushy>; num_opens table conformance; random 200-gene genomes trace-validated",
         text="TLC checks on every gene sequence up to 6 (thorough 8) genes over {close, opens 0/1/2} that the two independent definitions of the translation agree, that the result reads depth-first as the genome's instructions, is well formed, and that translation terminates; every one of those genomes is translated by the real code and compared; num_opens() of every instruction the crate lists is compared with the documented table; random genomes of up to 200 genes (deep nesting, trailing opens, runs of closes) are checked by TLC against Parse.",
         note="One-block instructions are distinguished only by variant (three exist). Trusts TLC and the gene<->instruction encoding of the harness."),
+    "C10": dict(
+        cat="model_checking", ref="DESIGN.md §4 C10",
+        technique="TLA+ spec Variation.tla (cut points / masks / exchange ranges as explicit choices); TLC exhaustive over lengths 0..4/6 with the property's clauses as invariants; deterministic cases replayed on the real code; random real crossovers trace-validated (TLC infers the hidden cut points); segment-coverage obligation against the TLC-derived child sets",
+        text="TLC checks on all parents up to length 4 (thorough 6) and all bit-pattern pairs x every index / range (incl. inverted, out of range) that children are position-wise, one contiguous segment, that every segment and every mask is reachable, that exchanges move exactly the addressed genes and that misuse is an error; every deterministic case is executed on the real TwoPointXo / UniformXo / Bitstring primitives in all four input forms; thousands of random real crossovers must be explainable by some cut pair / mask; and the set of distinct children observed per length must equal the set TLC derived (so a segment that can never occur is a violation).",
+        note="L7: only the support of the cut-point distribution is claimed. Bitstring parents are all-0/all-1 or complementary so provenance is visible. Trusts TLC and the harness encodings."),
+    "C11": dict(
+        cat="model_checking", ref="DESIGN.md §4 C11",
+        technique="TLA+ spec Variation.tla (flip masks and UMAD keep/insert decisions as explicit choices); TLC exhaustive over genomes <= 4/6, rates {0,1/4,1/2,1,3/2}, three UMAD constructors, with FlipShape / UmadShape / degenerate-rate identities as invariants; random real mutations trace-validated, TLC infers the decision vector",
+        text="TLC enumerates every outcome the specification allows for every small genome, rate and UMAD configuration and checks the clauses of the property (same length, in place, survivors in order, at most one insertion per position, new genes from the generator, the four degenerate-rate identities, the empty-parent cases), and that the membership test used for trace validation accepts exactly those outcomes; random real calls of WithRate, WithOneOverLength (Vec<bool>, Bitstring) and Umad (Vector, Plushy; lengths 0..12) must each be explainable by some decision vector.",
+        note="Genes are tagged so explanations are unique. Rates strictly inside (0,1) may produce any mask; measure-zero events are not claimed."),
 }
 
 PENDING = {}
